@@ -46,6 +46,8 @@ Strict == [allDomains |-> TRUE,   \* a placed pod blocks / occupies EVERY domain
            preferTaint |-> FALSE, \* nodeTaintsPolicy Honor also excludes nodes with an untolerated PreferNoSchedule taint
            fpod       |-> <<>>,   \* <<q>>: decide node inclusion with the node selector / required terms / tolerations of pod q
            since      |-> 0,      \* only the pods committed after position `since` of this pass are counted
+           hostClaims |-> TRUE,   \* hostname spread: the NodeClaims opened so far are eligible domains (FALSE in the order-free end-state form:
+                                  \* which of them existed when a pod was admitted is unknown, and a later one lowers the minimum retroactively)
            undefSkips |-> FALSE]  \* a pod committed to a NodeClaim that left a key of the node filter undefined at that moment is not counted
 
 Fld(r, f, d) == IF f \in DOMAIN r THEN r[f] ELSE d
@@ -228,7 +230,7 @@ SpreadParts(o, W, p, x, s, UL) ==
         \* hostname: every domain is one node; the eligible ones are the nodes that certainly take part (Kubernetes has no
         \* notion of "a node that could be created": Karpenter assuming a minimum of 0 is stricter and accepted)
         HostD == {n.name : n \in {m \in Range(cfg.nodes) : m.stage # "claimonly" /\ ~m.marked /\ ~m.deleting /\ Inc(o, cfg, p, s, NodeT(m.name)).lo}}
-                 \cup {id \in DOMAIN W.tg : W.tg[id].kind = "claim" /\ Inc(o, cfg, p, s, W.tg[id]).lo}
+                 \cup (IF o.hostClaims THEN {id \in DOMAIN W.tg : W.tg[id].kind = "claim" /\ Inc(o, cfg, p, s, W.tg[id]).lo} ELSE {})
         D == (IF k = "host" THEN HostD
               ELSE {e \in U : (o.policies /\ o.ignoreWidens /\ s.affPol = "Ignore") \/ AllowsKey(o, cfg, p, k, e)}) \cup Dx
         self == IF SpreadMatches(o, s, p, p) THEN 1 ELSE 0
@@ -273,7 +275,7 @@ EndSpreadOK(o, W, p, s, Uof(_, _)) ==
         Dp == TDom(cfg, Loc(W, p), s.key)
         C(d) == {q \in PlacedPods(W) : Carries(q, s, p) /\ d \in TDom(cfg, Loc(W, q), s.key)}
     IN Dp # {} /\ \A d \in Dp : \E q \in C(d) : \E i \in CarriesIdx(q, s, p) :
-                      SpreadParts(o, Without(W, q), q, Loc(W, q), q.spread[i], Uof(q, q.spread[i])).okd[d]
+                      SpreadParts([o EXCEPT !.hostClaims = FALSE], Without(W, q), q, Loc(W, q), q.spread[i], Uof(q, q.spread[i])).okd[d]
 EndSpreadBad(o, W, Uof(_, _)) ==
     UNION {{<<PKey(p), i>> : i \in {j \in DnsIdx(p) : ~EndSpreadOK(o, W, p, p.spread[j], Uof)}} : p \in PlacedPods(W)}
 
